@@ -370,6 +370,14 @@ def hand(repo):
     A(text_mutant('c12-abstract-node-value-equality', 'rtamt/syntax/node/abstract_node.py', "class AbstractNode:\n", "class AbstractNode:\n    def __eq__(self, other):\n        return type(self) is type(other) and self.name == other.name\n\n    def __hash__(self):\n        return hash(self.name)\n\n"))
     A(text_mutant('c04-timed-once-scan-for-zero-begin', OFF_DENSE, "        sample_return = once_timed_operation(sample, begin, end)\n",
                   "        if begin == 0:\n            return list(sample)\n        sample_return = once_timed_operation(sample, begin, end)\n"))
+    # round-5 rules
+    A(text_mutant('c03-pastify-first-spec-horizon-for-all', 'rtamt/pastifier/stl/pastifier.py', "            horizon = horizons[spec]\n", "            horizon = horizons[ast.specs[-1]]\n"))
+    A(text_mutant('c10-set-ast-keeps-operators-when-present', 'rtamt/semantics/abstract_online_interpreter.py', "        # init dict of online operators\n        self.online_operator_dict = dict()\n",
+                  "        # init dict of online operators\n        if getattr(self, 'online_operator_dict', None):\n            return\n        self.online_operator_dict = dict()\n"))
+    A(text_mutant('c07-data-entry-value-or-previous', 'rtamt/semantics/abstract_discrete_time_online_interpreter.py', "                self.ast.var_object_dict[var_name] = var_value\n",
+                  "                self.ast.var_object_dict[var_name] = var_value or self.ast.var_object_dict[var_name]\n"))
+    A(text_mutant('c11-handler-state-in-vars-self', OFF_D, "        sample_return = []\n        buffer_left = collections.deque(maxlen=(end + 1))\n",
+                  "        sample_return = vars(self).setdefault('since_scratch', [])\n        buffer_left = collections.deque(maxlen=(end + 1))\n", 0))
     # C02 / C09 / C05 memo of the update visitor
     A(text_mutant('c02-memo-truthiness', 'rtamt/semantics/abstract_online_interpreter.py', 'if node.name in self.visited:', 'if self.visited.get(node.name):', 0))
     return out
@@ -530,6 +538,23 @@ def twins(repo):
                 "    def parse(self):\n        try:\n            self.ast.parse()\n        finally:\n            pass\n"))
     A(text_twin('twin-period-helper-parenthesised', 'rtamt/pastifier/stl/horizon.py', 'return Fraction(ast.sampling_period * ast.U[ast.sampling_period_unit]) / ast.U[ast.unit]',
                 'return Fraction(ast.U[ast.sampling_period_unit] * ast.sampling_period) / ast.U[ast.unit]'))
+    # round-5 twins
+    A(text_twin('twin-pastify-driver-inline-horizon', 'rtamt/pastifier/stl/pastifier.py', "            horizon = horizons[spec]\n            pastified_spec = self.visit(spec, horizon)\n",
+                "            pastified_spec = self.visit(spec, horizons[spec])\n"))
+    A({'id': 'twin-converter-memo-with-full-key', 'kind': 'twin', 'props': list(ALL), 'edits': [('rtamt/semantics/discrete_time_interpreter.py', E.replace(
+        "    def time_unit_transformer(self, node):\n        b = node.begin\n",
+        "    def time_unit_transformer(self, node):\n        key = (node, self.sampling_period, self.sampling_period_unit, self.ast, self.ast.unit)\n        if key in self.bounds_memo:\n            return self.bounds_memo[key]\n        b = node.begin\n")),
+        ('rtamt/semantics/discrete_time_interpreter.py', E.replace("        b = int(b)\n        e = int(e)\n", "        b = int(b)\n        e = int(e)\n        self.bounds_memo[key] = (b, e)\n")),
+        ('rtamt/semantics/discrete_time_interpreter.py', E.replace("        self.normalize = float(1.0)\n", "        self.normalize = float(1.0)\n        self.bounds_memo = dict()\n"))]})
+    A(text_twin('twin-intersection-copy-on-both-branches', 'rtamt/semantics/stl/dense_time/offline/intersection.py',
+                "    if in_samples_1[-1][0] < float('inf'):\n        in_samples_1.append([float('inf'), in_samples_1[-1][1]])\n",
+                "    if in_samples_1[-1][0] < float('inf'):\n        in_samples_1 = in_samples_1 + [[float('inf'), in_samples_1[-1][1]]]\n"))
+    A(text_twin('twin-data-entry-skips-unknown-names-first', 'rtamt/semantics/abstract_discrete_time_online_interpreter.py',
+                "            if data[0] in self.ast.free_vars:\n", "            if var_name not in self.ast.free_vars:\n                continue\n            if data[0] in self.ast.free_vars:\n"))
+    A({'id': 'twin-short-trace-shortcut-for-zero-begin', 'kind': 'twin', 'props': list(ALL), 'edits': [
+        (OFF_D, E.replace("import collections\n", "import collections\nimport itertools\n")),
+        (OFF_D, E.replace("        if sample_len <= end:\n            sample = sample + [float('inf')] * (end - sample_len + 1)\n",
+                          "        if sample_len <= end and begin == 0:\n            return list(itertools.accumulate(reversed(sample), min))[::-1]\n        if sample_len <= end:\n            sample = sample + [float('inf')] * (end - sample_len + 1)\n"))]})
     A({'id': 'twin-reformat-discrete-interpreter', 'kind': 'twin', 'props': list(ALL), 'edits': [('rtamt/semantics/discrete_time_interpreter.py', _reformat)]})
     return out
 
